@@ -505,7 +505,19 @@ fn run_inner(w: &mut World, s: &HistScenario) -> RunOut {
                     if let Some(parent) = Path::new(&real).parent() {
                         let _ = std::fs::create_dir_all(parent);
                     }
-                    if std::fs::write(&real, &bytes).is_err() {
+                    // some files are reached through a symbolic link (a readable file all the same)
+                    let via_link = digest_str(&disk_slot(path)) % 3 == 0;
+                    let _ = std::fs::remove_file(&real);
+                    let wrote = if via_link {
+                        let target = format!("{real}.target");
+                        let r = std::fs::write(&target, &bytes);
+                        let _ = std::os::unix::fs::symlink(&target, &real);
+                        w.count("passthrough_symlinked_files");
+                        r
+                    } else {
+                        std::fs::write(&real, &bytes)
+                    };
+                    if wrote.is_err() {
                         w.count("harness_scratch_write_failed");
                     }
                 }
@@ -1073,10 +1085,17 @@ fn check_c13(
     for (k, e) in model {
         let iso = w.iso(&e.text);
         if iso.has_tree {
-            registered
-                .entry(iso.key.clone())
-                .or_default()
-                .push((k.clone(), iso.kind.clone()));
+            // Package, name and kind as the generator wrote them, when known: a library that
+            // derives another key from an unusual LAYOUT of the same package clause (white space or
+            // a comment inside the dotted name) must not thereby change what importers see.
+            let (key, kind) = match &e.meta {
+                Some(m) => (format!("{}.{}", m.pkg, m.name), m.kind.clone()),
+                None => (iso.key.clone(), iso.kind.clone()),
+            };
+            if key != iso.key || kind != iso.kind {
+                w.count("c13_model_key_differs_from_library_key");
+            }
+            registered.entry(key).or_default().push((k.clone(), kind));
         }
         isos.insert(k.clone(), iso);
     }
